@@ -28,8 +28,8 @@ struct rec_visitor
     std::vector<unsigned> idx;
 };
 
-template<typename Set, typename Table>
-static std::string gen_case(const Table& tab, unsigned long long bits, unsigned n, bool b)
+template<typename Set, typename Entry, std::size_t N>
+static std::string gen_case(const Entry (&tab)[N], unsigned long long bits, unsigned n, bool b)
 {
     using U = typename std::decay<decltype(*std::declval<Set>())>::type;
     Set s{static_cast<U>(bits)};
@@ -45,10 +45,21 @@ static std::string gen_case(const Table& tab, unsigned long long bits, unsigned 
     rec_visitor v;
     sbepp::visit(s, v);
     os << " visit=" << v.out;
-    bool order_ok = true;
-    for(std::size_t i = 0; i < v.idx.size(); i++)
-        order_ok = order_ok && (v.idx[i] == i);
+    // every declared choice once, in declaration order, under its own tag
+    bool order_ok = (v.idx.size() == N);
+    for(std::size_t i = 0; order_ok && (i < v.idx.size()); i++)
+        order_ok = (v.idx[i] == tab[i].idx);
     os << " order=" << order_ok;
+    // name-based visit
+    os << " vs=";
+    bool first = true;
+    sbepp::visit_set(
+        s,
+        [&](bool value, const char* name)
+        {
+            os << (first ? "" : ",") << name << ":" << (value ? 1 : 0);
+            first = false;
+        });
     os << " eq=" << (s1 == s2) << (s == s1) << " ne=" << (s != s1);
     return os.str();
 }
@@ -80,7 +91,11 @@ int main()
             const auto bits = hu::to_u64(a[2]);
             const unsigned n = static_cast<unsigned>(hu::to_u64(a[3]));
             const bool b = a[4] == "1";
-            if(a[1] == "u8") std::cout << gen_case<hs_sets::types::set8>(tab_set8, bits, n, b) << "\n";
+            if(a[1] == "pu8") std::cout << gen_case<hs_sets::types::pset8>(tab_pset8, bits, n, b) << "\n";
+            else if(a[1] == "pu16") std::cout << gen_case<hs_sets::types::pset16>(tab_pset16, bits, n, b) << "\n";
+            else if(a[1] == "pu32") std::cout << gen_case<hs_sets::types::pset32>(tab_pset32, bits, n, b) << "\n";
+            else if(a[1] == "pu64") std::cout << gen_case<hs_sets::types::pset64>(tab_pset64, bits, n, b) << "\n";
+            else if(a[1] == "u8") std::cout << gen_case<hs_sets::types::set8>(tab_set8, bits, n, b) << "\n";
             else if(a[1] == "u16") std::cout << gen_case<hs_sets::types::set16>(tab_set16, bits, n, b) << "\n";
             else if(a[1] == "u32") std::cout << gen_case<hs_sets::types::set32>(tab_set32, bits, n, b) << "\n";
             else std::cout << gen_case<hs_sets::types::set64>(tab_set64, bits, n, b) << "\n";
